@@ -76,6 +76,9 @@ public:
    */
   size_t getSize();
 
+  /** Saves the hash to a file (expanded back to one entry per cell) */
+  void save(std::ostream &fp);
+
   /** Loads a hash from a file*/
   static HashBdh *load(std::istream &fp);
 
